@@ -127,3 +127,26 @@ func vpC01_O5() {
 		vpAssert("accepted proof: no index both disclosed and hidden", proof.AResponses[i] == nil)
 	}
 }
+
+func init() {
+	vpHarnesses["vpC01_O6"] = vpC01_O6
+}
+
+// C01-O6: a "proof" made from public data only. With A a multiple of the modulus
+// (0, N, 2N) every term that involves A vanishes modulo N; if the verifier does not
+// insist on A being a unit, the reconstructed commitment is 0 whatever the
+// responses and disclosed values are, and the challenge over (A, 0) can be computed
+// by anyone. Such a proof, reporting arbitrary values, must be rejected.
+func vpC01_O6() {
+	pk, _ := vpKeys(0, 4, 1024, false)
+	ctx, nonce := vpBigBits("ctx", 256), vpBigBits("nonce", 80)
+	issig := vpBool("issig")
+	A := new(big.Int).Mul(big.NewInt(int64(vpChoose("kA", 3))), pk.N)
+	c := createChallenge(ctx, nonce, []*big.Int{A, big.NewInt(0)}, issig)
+	vpAssume(c.Sign() != 0)
+	proof := &ProofD{C: c, A: A, EResponse: vpBigBits("e", 400), VResponse: vpBigBits("v", 2000),
+		AResponses: map[int]*big.Int{0: vpBigBits("r0", 500), 3: vpBigBits("r3", 500)},
+		ADisclosed: map[int]*big.Int{1: vpBigBits("d1", 256), 2: vpBigBits("d2", 256)}}
+	vpAssert("a proof with a degenerate A, made from public data only, is rejected", !proof.Verify(pk, ctx, nonce, issig))
+	vpAssert("a list with such a proof is rejected", !ProofList{proof}.Verify([]*gabikeys.PublicKey{pk}, ctx, nonce, issig, nil))
+}
